@@ -31,6 +31,8 @@ type cutCase struct {
 	Chunks []int
 	EOFDat bool
 	Entry  string
+	// Skip: Reader.SkipHeaderCheck (entries ".../skipcheck"); the streams are valid, so the cut is judged alike.
+	Skip bool
 
 	data   []byte
 	start  []int // offset of each frame
@@ -150,7 +152,7 @@ func (c *cutCase) runReader() error {
 	src := c.src()
 	idle := 2*len(c.Frames) + 4
 	var ictl []ctlSeen
-	rd := &wsutil.Reader{Source: src, State: c.State, CheckUTF8: true}
+	rd := &wsutil.Reader{Source: src, State: c.State, CheckUTF8: true, SkipHeaderCheck: c.Skip}
 	rd.OnIntermediate = func(h ws.Header, r io.Reader) error {
 		p, err := readUntil(r, 64, idle)
 		if err == io.EOF {
@@ -406,7 +408,7 @@ func (c *cutCase) runReadDataFiltered(want ws.OpCode) error {
 // that is not a clean end of stream.
 func (c *cutCase) runReaderDiscard() error {
 	src := c.src()
-	rd := &wsutil.Reader{Source: src, State: c.State, CheckUTF8: true}
+	rd := &wsutil.Reader{Source: src, State: c.State, CheckUTF8: true, SkipHeaderCheck: c.Skip}
 	for _, e := range ref.Events(c.Frames) {
 		if e.Kind == "ctl" && e.Intermediate {
 			continue
@@ -538,6 +540,12 @@ func (c *cutCase) runReadHeader() error {
 
 func (c *cutCase) run() error {
 	switch c.Entry {
+	case "Reader/skipcheck":
+		c.Skip = true
+		return c.runReader()
+	case "Reader+Discard/skipcheck":
+		c.Skip = true
+		return c.runReaderDiscard()
 	case "Reader":
 		return c.runReader()
 	case "Reader+ControlFrameHandler":
@@ -560,7 +568,7 @@ func (c *cutCase) run() error {
 	return c.runReadHeader()
 }
 
-var readerEntries = []string{"Reader", "Reader+Discard", "Reader+ControlFrameHandler", "ReadData", "ReadText", "ReadBinary", "ReadMessage", "ReadFrame", "ReadHeader", "NextReader"}
+var readerEntries = []string{"Reader", "Reader+Discard", "Reader+ControlFrameHandler", "ReadData", "ReadText", "ReadBinary", "ReadMessage", "ReadFrame", "ReadHeader", "NextReader", "Reader/skipcheck", "Reader+Discard/skipcheck"}
 
 // sweep runs every cut offset x fault kind x entry point over one conversation.
 // It returns the first failing case.
